@@ -306,6 +306,44 @@ def foreach_search(ctx):
     return [int(x) for x in re.findall(r"-?\d+", m.group(1))]
 
 
+def join_stress(ctx):
+    """Runs after the pipe part has finished (its own stress is deadline-sensitive; the two must not compete for the cores)."""
+    if not getattr(ctx, "c01_stress_exes", None):
+        return
+    asan_internal, fast_internal, wd = ctx.c01_stress_exes
+    # join stress on the internal backend: oversubscribed thread counts, trivial bodies, small n, thousands of short loops in a
+    # time box; oracle (in the harness, state-based): every index has run when parallel_for returns, and nothing runs on the
+    # returned call's frame afterwards (a crash of a late worker is reported by a signal handler with the configuration).
+    # Two runs on an unsanitized -O2 build (tens of thousands of rounds) and one under ASan (dead-stack diagnostics); a hit
+    # is re-run once.
+    cores = os.cpu_count() or 16
+    box = ctx.pick(2500, 15000)
+    T2, T4 = min(max(32, 2 * cores), 128), min(max(64, 4 * cores), 128)
+    stress = {}
+    for (label, sexe, T, nlo, nhi) in [("fast", fast_internal, T2, 16, 64), ("fast", fast_internal, T4, 100, 400),
+                                       ("asan", asan_internal, T4, 100, 400)]:
+        def stress_run(sexe=sexe, T=T, nlo=nlo, nhi=nhi):
+            rc, out, err = ctx.run_exe(sexe, [str(T), str(wd)], stdin="S s %d %d %d\n" % (nlo, nhi, box), timeout=box // 1000 + 120,
+                                       env={"ASAN_OPTIONS": vlib.Ctx.SAN_ENV["ASAN_OPTIONS"] + ":detect_stack_use_after_return=1"})
+            line = next((l for l in out.splitlines() if l.startswith("s ")), None)
+            return rc, line, (out + err)[-2500:]
+        rc, line, tail = stress_run()
+        ctx.count(1)
+        m = re.match(r"s rounds=(\d+) ok", line or "")
+        if m and rc == 0:
+            stress["%s T=%d n=%d..%d" % (label, T, nlo, nhi)] = int(m.group(1))
+            ctx.nontriv(["S", label, T, nlo, int(m.group(1)) > 100])
+            continue
+        rc2, line2, tail2 = stress_run()
+        ctx.violation("internal backend, initTaskingSystem(%d) (oversubscribed, %d cores), short parallel_for loops with a trivial body, n in [%d,%d] "
+                      "(%s build): %s; second run: %s" % (T, cores, nlo, nhi, label, line or "harness died rc=%d" % rc, line2 or "harness died rc=%d" % rc2),
+                      {"backend": "internal", "T": T, "kind": "S", "build": label, "harness_line": "S x %d %d %d" % (nlo, nhi, box), "observed": line,
+                       "rc": rc, "observed_second_run": line2, "output_tail": tail,
+                       "required": "when parallel_for returns every index of [0,n) has been run (join), and nothing of the loop runs afterwards"})
+        break
+    ctx.cov["join_stress_rounds"] = stress
+
+
 def run(ctx):
     """The C01 check = the loop/scheduler part (run_rest) + the LockLessMultiReadPipe part (props/C01/pipe_check.py: run_pipe).
     One Coq project (coq/C01/_CoqProject) and one coq_check carry both; after it the pipe part (extraction, harness builds,
@@ -334,6 +372,7 @@ def run(ctx):
                 ctx.log("pipe part raised:\n" + traceback.format_exc()[-2000:])
                 ctx.broken.append("pipe part of the check raised %s: %s" % (type(e).__name__, e))
             pctx.merge()
+    join_stress(ctx)
     if ctx.thorough():
         ctx.coq_thorough_chk(["C01.Properties", "C01.PropertiesSrc", "C01.PropertiesPipe", "C01.PropertiesPipeFacts"])
 
@@ -349,10 +388,13 @@ def run_rest(ctx, res):
     model = ctx.extract(snippets=["conv_N.ml", "conv_Z.ml", "conv_nat.ml"])
     jobs = [dict(sources=["harness.cpp"], out="h_" + b, backend=b, sanitize="asan") for b in BACKENDS]
     exes = ctx.cxx_many(jobs)
-    extra = [dict(sources=["repro25.cpp"], out="repro25", backend="internal", sanitize=None)]
+    extra = [dict(sources=["repro25.cpp"], out="repro25", backend="internal", sanitize=None),
+             # unsanitized -O2 build of the harness for the join stress (many more rounds per second than under ASan)
+             dict(sources=["harness.cpp"], out="h_internal_fast", backend="internal", sanitize=None, opt="-O2")]
     if ctx.thorough():
         extra += [dict(sources=["harness.cpp"], out="h_%s_tsan" % b, backend=b, sanitize="tsan") for b in ("tbb", "omp")]
     xexes = ctx.cxx_many(extra)
+    fast_internal = xexes[1]
     if not model or not all(exes) or not all(xexes):
         return
     exe = dict(zip(BACKENDS, exes))
@@ -534,6 +576,7 @@ def run_rest(ctx, res):
                            "observed": obs, "required": req, "model_witness": "count handed to parallel_for != distance in the machine reading of gen/Src.v"})
         else:
             ctx.log("witness distance %d not confirmed on the real code" % dist)
+    ctx.c01_stress_exes = (exe["internal"], fast_internal, wd)
     # public-API reproduction of defect 25
     rc, out, err = ctx.run_exe(xexes[0], ["13", "5", "1", "14", "27", "300"], timeout=60)
     ctx.count(1)
@@ -550,7 +593,7 @@ def run_rest(ctx, res):
     # (observed: parallel_for.inl:26 vs. the caller's frame on OpenMP, tbb partitioner internals on TBB).  The
     # reports are therefore counted, not judged; the TSan builds still run the value oracle (different timing).
     if ctx.thorough():
-        for bk, e in zip(("tbb", "omp"), xexes[1:]):
+        for bk, e in zip(("tbb", "omp"), xexes[2:]):
             cs = [c for c in gen_cases(ctx, bk, 3) if c[0] in ("F", "E") and c[1].get("n", 0) <= 4095][:150]
             errs = []
             results, fatals, notrun = run_group(ctx, e, bk, 3, cs, wd, errs=errs,
